@@ -7,7 +7,7 @@ import zlib
 
 from engine import gen_states, pool_map
 from props.coords_common import segs_of, cigar_for, nid
-from readers import read_out, join_lines, gaf_record, line_at, load_pickle, read_text, run_cli, write_text, workdir, lines_of
+from readers import zname, read_out, join_lines, gaf_record, line_at, load_pickle, read_text, run_cli, write_text, workdir, lines_of
 
 
 def gfa_text(segs, links):
@@ -138,7 +138,7 @@ def run_session(job):
             # one record longer than 64 KiB (a noisy long read with a huge CIGAR-like field): lines have no maximal length
             f0 = ulines[0].split("\t")
             ulines.append("\t".join(["long" + f0[0]] + f0[1:] + ["zz:Z:" + "p" * 70000, "zy:i:7"]))
-        ext = ".gz" if bgzf else ""
+        ext = zname("", sid) if bgzf else ""
         U = os.path.join(d, "u.gaf" + ext)
         if zlib.crc32(("lnk" + sid).encode()) % 4 == 2:
             # the GAF named on the command line is a symbolic link to the file (kept elsewhere under another name): indexes
@@ -181,7 +181,7 @@ def run_session(job):
                 if zlib.crc32(f"{sid}.{fmt}".encode()) % 3 == 0 and len(lines) > 1:
                     # the index is asked for at another place (index -o / view -i) while the default location holds a STALE
                     # one (made for the same records in reverse order): the index named on the command line must be used
-                    alt = os.path.join(d, "idx_" + fmt, "other.name.gvi")
+                    alt = os.path.join(d, "idx_" + fmt, ["other.name.gvi", "reads.index", "idx"][zlib.crc32(("alt" + sid).encode()) % 3])      # any name the user likes
                     os.makedirs(os.path.dirname(alt), exist_ok=True)
                     r2 = run_cli(["index", F, gfa, "-o", alt])
                     rev = os.path.join(d, "rev_" + fmt + ".gaf")
